@@ -60,7 +60,10 @@ def run(tier, seed):
     quick = tier == "quick"
     texts = []
     for i in range(40 if quick else 400):
-        if i % 5 == 4:
+        if i % 7 == 6:
+            from props.c15 import tdm_script
+            texts.append(tdm_script(rng, with_params=False, with_loop=False)[0])      # the variable block is written in declaration order
+        elif i % 5 == 4:
             texts.append(array_kw_script(rng))
         elif i % 3 != 2:
             texts.append(multi_param_script(rng))
